@@ -52,6 +52,9 @@ pub(crate) struct Model {
     pub threads: usize,
     pub describe: String,
     pub run: Box<dyn Fn() + Send + Sync + 'static>,
+    /// a sequential enumeration that starts one (single-threaded) loom execution per case itself
+    /// and counts them in `ITERATIONS`; not wrapped in `Builder::check`
+    pub seq: bool,
 }
 
 fn main() {
@@ -107,12 +110,17 @@ fn main() {
             b.log = false;
             b.checkpoint_interval = 2000;
             let run = m.run;
+            let seq = m.seq;
             let result = std::panic::catch_unwind(std::panic::AssertUnwindSafe(|| {
-                b.check(move || {
-                    ITERATIONS.fetch_add(1, Ordering::Relaxed);
-                    OPLOG.lock().unwrap().clear();
+                if seq {
                     run();
-                })
+                } else {
+                    b.check(move || {
+                        ITERATIONS.fetch_add(1, Ordering::Relaxed);
+                        OPLOG.lock().unwrap().clear();
+                        run();
+                    })
+                }
             }));
             let iterations = ITERATIONS.load(Ordering::Relaxed);
             let wall = started.elapsed().as_secs_f64();
